@@ -258,7 +258,13 @@ SurroundCases ==
         rl \in RefLists, rk \in {"rect", "ellipse", "line", "g", "mixed"}, k \in {"rect", "circle", "ellipse"}, m \in Margins}
 
 \* inside: rect in rects (exact), rect in one ellipse/circle, circle/ellipse in one rect
-OverlapLists == {<<B(0, 0, 32, 24)>>, <<B(0, 0, 32, 24), B(8, 4, 40, 32)>>, <<B(-8, -8, 24, 24), B(0, 0, 48, 16)>>}
+\* (three and four listed boxes: the common area is that of ALL of them, whichever
+\* position in the list the binding one has)
+OverlapLists == {<<B(0, 0, 32, 24)>>, <<B(0, 0, 32, 24), B(8, 4, 40, 32)>>, <<B(-8, -8, 24, 24), B(0, 0, 48, 16)>>,
+                 <<B(0, 0, 32, 24), B(8, 4, 24, 20), B(4, 0, 40, 32)>>,
+                 <<B(0, 0, 32, 24), B(12, 8, 40, 32), B(4, 4, 36, 20)>>,
+                 <<B(8, 8, 24, 20), B(0, 0, 32, 24), B(4, 0, 40, 32)>>,
+                 <<B(0, 0, 40, 40), B(8, 0, 48, 32), B(0, 12, 32, 48), B(-8, -8, 28, 36)>>}
 InsideCases ==
     {[fam |-> "contain", mode |-> "inside", refs |-> rl, refkinds |-> "rect", kind |-> k, margin |-> m,
       exp |-> IF m = <<>> THEN InterAll(rl) ELSE Shrink(InterAll(rl), m)] :
@@ -334,7 +340,7 @@ ConnCases ==
     \cup
     {[fam |-> "conn", form |-> "edge", ctype |-> "straight", a |-> ABox, b |-> bb, edge |-> e, okind |-> o[1], off |-> o[2],
       eloc |-> el, pairs |-> {<<EdgeLoc(ABox, e, o[1], o[2]), Loc(bb, el), e, el>>}] :
-        bb \in BBoxes, e \in {"t", "r", "b", "l"}, o \in {<<"pct", 25>>, <<"abs", 2>>, <<"abs", -2>>}, el \in {"l", "c"}}
+        bb \in BBoxes, e \in {"t", "r", "b", "l"}, o \in {<<"pct", 25>>, <<"abs", 2>>, <<"abs", -2>>, <<"abs", 0>>, <<"pct", 0>>, <<"pct", 100>>}, el \in {"l", "c"}}
     \cup
     \* a literal start point, automatic end
     {[fam |-> "conn", form |-> "point", ctype |-> "straight", a |-> ABox, b |-> bb, pt |-> p,
@@ -425,11 +431,14 @@ IsLeft(l) == l \in {"tl", "l", "bl"}
 IsRight(l) == l \in {"tr", "r", "br"}
 \* text of lines (and with d-text-outside) is pushed outward, otherwise inward
 IsOutside(shape, side) == side = "outside" \/ (side = "default" /\ shape = "line")
-TextAnchor(b, loc, out, off, dx, dy) ==
-    LET p == Loc(b, loc)
+\* p: the point on the shape's box - a named location or a point along an edge (then
+\* `loc` is the edge, and the text moves perpendicular to it only)
+TextAnchorAt(p, loc, out, off, dx, dy) ==
+    LET
         sx == IF IsLeft(loc) THEN (IF out THEN -off ELSE off) ELSE IF IsRight(loc) THEN (IF out THEN off ELSE -off) ELSE 0
         sy == IF IsTop(loc) THEN (IF out THEN -off ELSE off) ELSE IF IsBottom(loc) THEN (IF out THEN off ELSE -off) ELSE 0
     IN <<p[1] + sx + dx, p[2] + sy + dy>>
+TextAnchor(b, loc, out, off, dx, dy) == TextAnchorAt(Loc(b, loc), loc, out, off, dx, dy)
 \* alignment classes (styles reference): text inside the top edge is
 \* top-aligned, text outside the top edge sits above it: bottom-aligned
 AlignClasses(loc, out, vert) ==
@@ -441,11 +450,19 @@ AlignClasses(loc, out, vert) ==
     IN {"d-text"} \cup v \cup h
 
 TextPosCases ==
-    {[fam |-> "textpos", shape |-> sh, box |-> b, loc |-> l, side |-> sd, off |-> o, dx |-> d[1], dy |-> d[2], vert |-> vt,
+    {[fam |-> "textpos", shape |-> sh, box |-> b, loc |-> l, okind |-> "none", eoff |-> 0, side |-> sd, off |-> o, dx |-> d[1], dy |-> d[2], vert |-> vt,
       exp |-> TextAnchor(b, l, IsOutside(sh, sd), (IF o = 0 THEN 4 ELSE o), d[1], d[2]),
       classes |-> AlignClasses(l, IsOutside(sh, sd), vt)] :
         sh \in {"rect", "circle", "ellipse", "line"}, b \in {B(8, 12, 40, 28), B(-20, -8, -4, 8)}, l \in LocNames,
         sd \in {"default", "inside", "outside"}, o \in {0, 12}, d \in {<<0, 0>>, <<4, -8>>}, vt \in BOOLEAN}
+    \cup
+    \* a point along an edge: text-loc="t:25%", "l:1", "b:-2"
+    {[fam |-> "textpos", shape |-> sh, box |-> b, loc |-> e, okind |-> eo[1], eoff |-> eo[2], side |-> sd, off |-> o, dx |-> d[1], dy |-> d[2], vert |-> vt,
+      exp |-> TextAnchorAt(EdgeLoc(b, e, eo[1], eo[2]), e, IsOutside(sh, sd), (IF o = 0 THEN 4 ELSE o), d[1], d[2]),
+      classes |-> AlignClasses(e, IsOutside(sh, sd), vt)] :
+        sh \in {"rect", "ellipse"}, b \in {B(8, 12, 40, 28), B(-20, -8, -4, 8)}, e \in {"t", "r", "b", "l"},
+        eo \in {<<"pct", 25>>, <<"pct", 100>>, <<"abs", 4>>, <<"abs", -4>>, <<"abs", 0>>},
+        sd \in {"default", "outside"}, o \in {0, 12}, d \in {<<0, 0>>, <<4, -8>>}, vt \in {FALSE}}
 
 TextPosIdentities ==
     c.fam = "textpos" =>
